@@ -261,7 +261,18 @@ where
             if let Some(pos) = self.incomplete_pos.take() {
                 // resume incomplete search after previous read_record_set(), or
                 // after a seek() call.
-                if !try_opt!(self.resume_incomplete_search(pos, is_new)) {
+                let found = match self.resume_incomplete_search(pos, is_new) {
+                    Ok(found) => found,
+                    Err(e) => {
+                        if rset.buf_positions.is_empty() {
+                            return Some(Err(e));
+                        }
+                        // return the records preceding the failing one first
+                        self.retry_record();
+                        break;
+                    }
+                };
+                if !found {
                     // end of input: return the records collected so far (if any)
                     if rset.buf_positions.is_empty() {
                         return None;
@@ -271,7 +282,18 @@ where
             } else {
                 // search the next complete record after `next()`, or in
                 // later iterations of this loop
-                if !try_opt!(self.search()) {
+                let found = match self.search() {
+                    Ok(found) => found,
+                    Err(e) => {
+                        if rset.buf_positions.is_empty() {
+                            return Some(Err(e));
+                        }
+                        // return the records preceding the failing one first
+                        self.retry_record();
+                        break;
+                    }
+                };
+                if !found {
                     // At least one record must be present. If not, continue
                     // with `resume_incomplete_search()` in next iteration
                     if rset.buf_positions.is_empty() {
@@ -301,6 +323,13 @@ where
         rset.buffer.clear();
         rset.buffer.extend(self.get_buf());
         Some(Ok(()))
+    }
+
+    // After an error, makes the next call search the current record again
+    // (and thus return the same error), the buffer still holds it
+    fn retry_record(&mut self) {
+        self.incomplete_pos = None;
+        self.state = State::Positioned;
     }
 
     #[inline(never)]
